@@ -115,12 +115,12 @@ impl OverlappingState {
                         lemma_seq_assoc(m, state_matches(aut, fstart(input.anchored, input.span.start as int), sid, next as nat, state.at + 1),
                             ov_from(aut, input.anchored, input.haystack@, fstart(input.anchored, input.span.start as int), input.span.end as int, state.at + 1, sid));
                     }
-//@@ after /let span = Span::from\([^;]*;/
+//@@ after /let span = [^;]*;/
                 proof {
                     // C19: the prefilter is consulted from the current position only
                     assert(span.start == state.at && span.end == input.span.end); // [C19] [C10]
                 }
-//@@ before /let span = Span::from\(state\.at\.\.input\.end\(\)\);/
+//@@ before /let span = [^;]*;/
                 proof {
                     assert(aut.startst_s(sid));
                     assert(aut.start_s(Anchored::No) == Some(sid));
